@@ -68,7 +68,10 @@ Inductive rwire := mkrw (ver : int) (root : limbs) (n : int) (es : list rwentry)
 Inductive rtree := RTNone | RTSame | RTEmpty | RTLeaf (k v : limbs).
 Inductive bobs := BOErr | BOOk (root : limbs) (es : list (limbs * rentry)).
 (* cfg: 0 = no WithHasher (package default), 1 = WithHasher(the configured hasher) *)
-Inductive rrestore := mkrr (cfg : int) (t : rtree) (o : bobs).
+(* tamper: the stream is re-encoded with one field changed before it is restored:
+   0 nothing; 1 version 2; 2 declared count + 1; 3 declared count - 1; 4 declared count -1;
+   5 declared count 2^40 *)
+Inductive rrestore := mkrr (cfg : int) (t : rtree) (tamper : int) (o : bobs).
 (* receiver: 0 = zero RDFEntry, 1 = Options{Hasher: configured}.NewRDFEntry(NewPath(""), "") *)
 Inductive rsingle := mkrs (e : rentry) (recv : int) (o : option (rentry * rkv)).
 
@@ -119,6 +122,16 @@ Definition wire_agree (w : wire) (r : rwire) : bool :=
       Z.eqb (w_ver w) (iz ver) && Z.eqb (w_root w) (z_of_limbs root) && Z.eqb (w_n w) (iz n)
       && wentries_agree (w_entries w) es && Bool.eqb (w_safe w) safe
   end.
+
+Definition tamper_wire (code : int) (w : wire) : wire :=
+  let c := iz code in
+  let setn n := mkwire (w_ver w) (w_src w) (w_compacted w) (w_root w) n (w_entries w) (w_safe w) in
+  if c =? 1 then mkwire 2 (w_src w) (w_compacted w) (w_root w) (w_n w) (w_entries w) (w_safe w)
+  else if c =? 2 then setn (w_n w + 1)
+  else if c =? 3 then setn (w_n w - 1)
+  else if c =? 4 then setn (-1)
+  else if c =? 5 then setn (2 ^ 40)
+  else w.
 
 Definition stored_agree (e : rdf_entry) (r : rentry) : bool :=
   let '(k, v, dt) := r in
@@ -175,7 +188,7 @@ Definition bcase_agree (q : Z) (c : bcase) : bool :=
                  | Ok w' =>
                      wire_agree w' w
                      && forallb (fun r => match r with
-                          | mkrr rc rt o =>
+                          | mkrr rc rt tc o =>
                               let cfg' := if Uint63.eqb rc 0%uint63 then None else Some Hc in
                               let t0 := match rt with
                                         | RTNone => None
@@ -183,7 +196,7 @@ Definition bcase_agree (q : Z) (c : bcase) : bool :=
                                         | RTEmpty => Some E
                                         | RTLeaf k v => Some (L (z_of_limbs k) (z_of_limbs v))
                                         end in
-                              restore_agree T (unmarshal T Hd (fun _ => true) cfg' t0 (iz inlen) w') o
+                              restore_agree T (unmarshal T Hd (fun _ => true) cfg' t0 (iz inlen) (tamper_wire tc w')) o
                           end) rs
                  | _ => false
                  end
